@@ -80,6 +80,8 @@ let chunk_name (site : string) (dc : bool) (i : int) : string =
   else if (site = "avcC" || site = "hvcC") && i = 5 then "bytes-after-record-dropped"
   else if site = "elng" && i = 0 then "elng-unterminated-language-rewritten"
   else if site = "esds" then "esds-size-field-rewritten"
+  else if site = "data" && i = 0 then "data-type-indicator-rewritten-1"
+  else if site = "data" && i = 1 then "data-locale-rewritten-0"
   else if dc then "reserved-bits-rewritten" else Printf.sprintf "chunk%d-rewritten" i
 let reason_str (site : string) (r : reason) : string =
   match r with
@@ -89,7 +91,8 @@ let reason_str (site : string) (r : reason) : string =
   | RGuard -> if site = "senc" then "senc-sample-count-zero-data-dropped"
               else if site = "uuid" then "piff-senc-sample-count-zero-data-dropped"
               else if site = "sgpd" then "reserved-bits-rewritten"   (* the reserved byte of a seig entry *)
-              else if site = "esds" then "esds-noncanonical-size-field-or-unknown-data" else "trun-data-offset-zero"
+              else if site = "esds" then "esds-noncanonical-size-field-or-unknown-data"
+              else if site = "wvtt" then "wvtt-prefix-cut-short" else "trun-data-offset-zero"
   | RMoov -> "trak-reordered"
   | RMoof -> "moof-trun-data-offset-zero"
   | RRsv (dc, i) -> chunk_name site dc (int_of_nat i)
@@ -117,7 +120,8 @@ let () =
     (* boxes without version: printed with version -1 *)
     L.iter (fun nm -> dontcare_of nm (-1) (LVisual (bytes_of_hex "00000000", z, z, z, z, z, z, [])))
       ["avc1"; "avc3"; "hvc1"; "hev1"; "encv"; "av01"; "vp08"; "vp09"];
-    L.iter (fun nm -> dontcare_of nm (-1) (LAudio (bytes_of_hex "00000000", z, z, z, z))) ["mp4a"; "enca"; "ac-3"; "ec-3"]
+    L.iter (fun nm -> dontcare_of nm (-1) (LAudio (bytes_of_hex "00000000", z, z, z, z))) ["mp4a"; "enca"; "ac-3"; "ec-3"];
+    dontcare_of "wvtt" (-1) (LWvtt (z, false))
   end else
   if Array.length Sys.argv > 1 && Sys.argv.(1) = "names" then begin
     L.iter (fun (n, _) -> Printf.printf "leaf %s\n" (hex_of_bytes n)) leaf_table;
